@@ -1,3 +1,4 @@
+import P0f.Props.C03
 import P0f.LogicOk.Prelude
 import P0f.Model.WireFields
 import P0f.Generated.Logic.FromIpv4
@@ -88,5 +89,25 @@ theorem tcpLayer_fields (t : List Nat) :
     (tcpLayer t).quirks = (tcpFields (tcpFieldsOf t)).2.2.2.union (tcpLayer t).opts.quirks := by
   unfold tcpLayer tcpFields tcpFieldsOf
   exact ⟨rfl, rfl, rfl⟩
+
+
+/-- **C03 (IPv4 quirks) against the source text**: the quirk set the printed `IP._from_ipv4` derives from the header fields Scapy
+    dissects (`ip4FieldsOf b`: the RFC 791 fields of the header bytes `b`) holds each quirk exactly under the documented header-bit
+    condition; likewise the fragment flag -/
+theorem source_ipv4_quirks (b : List Nat) (h : 5 ≤ b.getD 0 0 % 16) (q : Quirk) :
+    (Gen.fromIpv4 (ip4FieldsOf b)).2.2.2.2.2.2 q = specV4Quirk b q := by
+  rw [gen_fromIpv4, ipv4Layer_fields b h]
+  exact ipv4_quirks b q
+
+theorem source_ipv4_fragment (b : List Nat) (h : 5 ≤ b.getD 0 0 % 16) :
+    (Gen.fromIpv4 (ip4FieldsOf b)).2.2.2.2.2.1 = (v4MF b || v4FragOff b != 0) := by
+  rw [gen_fromIpv4, ipv4Layer_fields b h]
+  exact ipv4_fragment b
+
+/-- **C03 (IPv6 quirks) against the source text** -/
+theorem source_ipv6_quirks (b : List Nat) (q : Quirk) :
+    (Gen.fromIpv6 (ip6FieldsOf b)).2.2.2.2.2.2 q = specV6Quirk b q := by
+  rw [gen_fromIpv6, ipv6Layer_fields b]
+  exact ipv6_quirks b q
 
 end P0f
